@@ -155,4 +155,18 @@ PROPS = {
                         "names another task owns nominally through a wildcard but has itself excluded may or may not be selected by a new task (statement silent); the observed choice must stay constant",
                         "with an injected store failure the store content is not required to be unchanged (records written before the failure); the task list is"],
     },
+    "C19": {
+        "pkg": "hserver", "test": "TestC19", "replay_test": "TestC19_Corpus", "level": "exploration",
+        "quick": T(16, 40, timeout=900),
+        "thorough": T(16, 1500, timeout=7000, fuzz=[{"target": "FuzzC19", "time": "600s", "timeout": 1200}]),
+        "rule": "REAL HTTP handler + MetaCDC (real etcd meta store, fake downstream). (ii) rapid state machine: create requests assembled from valid parts and a labelled set of planted invalidities the statement lists "
+                "(no/both targets, host empty, port <= 0, negative timeout / buffer period / buffer size, user without password, empty / dotted / over-long collection or database names, undecodable / non-proto / non-vchannel positions, "
+                "positions of two collections, positions with '*', second position undecodable, foreign rpc channel, undecodable rpc position, zero / two collection infos, both forms, two databases, dotted mapping names), "
+                "adversarial but allowed names (wildcards inside, '/', unicode, blanks, maximum length), wrong JSON types, other request types with known / unknown / odd task ids, maintenance operations, non-POST methods; "
+                "on an empty server and after accepted creates (task limit 5). (i) byte level: documented requests, truncations, bit flips, deep nesting, huge numbers, saved fuzz findings (quick) and native go fuzzing (thorough). "
+                "Oracle: no panic escapes ServeHTTP, body = exactly one JSON object with code 200/400/500 (405 for non-POST), planted invalidity => non-200, and for every non-200 answer (list response, full meta-store dump, duplicate bookkeeping) identical before and after. "
+                "non-trivial = at least one create request passed JSON decoding and reached validation (valid, or rejected with a client error); distinct = distinct request/answer history",
+        "assumptions": ["requests the statement does not list as invalid (odd but legal names, unknown task ids for position/list, maintenance operations) may be answered with any of the three codes",
+                        "maintenance.InitMsgLog() is called once per process as CDCServer.Run does"],
+    },
 }
